@@ -17,6 +17,8 @@ C18 driver: one case per line → one canonical answer per line.
   wfault <writer> <spec> <sched> <trace>               → accepted=<n> res=ok|err
   rfault <reader> <spec> <mode> <k> <n>                → res=err | res=ok batches=<n> | SKIP
   jsont <spec> <batch> <k> <hex>                       → rows=<n> end=eos|err
+  avrot <spec> <header> <size:rows,…> <k>              → rows=<n> end=eos|err   (specAvro; avrorf/avrowf = rfault/wfault)
+  pqasync <spec> <E|T> <k> <n>                         → res=err | SKIP
 -/
 namespace ArrowModel.C18
 open ArrowModel.Proto
@@ -55,8 +57,11 @@ def handleIpcs (reader : String) (legacy eos : Bool) (ds : List MsgDesc) (k : Na
   let msgs := ds.map mkMsg
   let eosLen := if eos then prefixSize o else 0
   if reader = "sd" then
-    let r := specDecodePush (ds.map (fun d => (prefixSize o + d.metaLen + d.bodyLen, d.bodyLen))) eosLen k
-    s!"batches={countR (ds.take r.1)} end={r.2.show}"
+    let sp := specDecodePush (msgs.map (fun m => (frameLen o m, m.body.length))) eosLen k
+    let (ms, e) := pushAll drvBodyLen ((encodeStream o msgs eos).take k)
+    if ms != (msgs.take ms.length).map (wire o) then
+      "MODEL-SPEC-MISMATCH decoded messages are not the written ones" else
+    check s!"batches={countR (ds.take ms.length)} end={e.show}" s!"batches={countR (ds.take sp.1)} end={sp.2.show}"
   else
     let bytes := (encodeStream o msgs eos).take k
     let (ms, e) := parseAll drvBodyLen bytes
@@ -110,6 +115,8 @@ def handle (toks0 : List String) : String :=
   let toks := match toks0 with
     | "pqwfault" :: r => "wfault" :: r
     | "pqrfault" :: r => "rfault" :: r
+    | "avrowf" :: r => "wfault" :: "ocf" :: r
+    | "avrorf" :: r => "rfault" :: "ocf" :: r
     | t => t
   match toks with
   | ["ipcs", reader, _spec, legacy, eos, msgs, k] =>
@@ -147,6 +154,20 @@ def handle (toks0 : List String) : String :=
     else if mode = "S" ∨ mode = "A" then s!"res=ok batches={n}"
     else if mode = "I" then "SKIP"
     else "bad-op"
+  | ["avrot", _spec, hdr, blocks, k] =>
+    let pb (s : String) : Option (Nat × Nat) :=
+      match s.splitOn ":" with
+      | [a, b] => do pure ((← a.toNat?), (← b.toNat?))
+      | _ => none
+    match hdr.toNat?, parseList pb blocks, k.toNat? with
+    | some h, some bs, some k =>
+      let r := specAvro h bs k
+      s!"rows={r.1} end={r.2.show}"
+    | _, _, _ => "bad-op"
+  | ["pqasync", _spec, mode, _k, _n] =>
+    -- a failing fetch must surface as an error; an abandoned (never completing) fetch is
+    -- cancellation, outside the property's fault list: recorded, not predicted
+    if mode = "E" then "res=err" else if mode = "T" then "SKIP" else "bad-op"
   | ["jsont", _spec, batch, k, hex] =>
     match batch.toNat?, k.toNat?, parseHex hex with
     | some b, some k, some bytes =>
